@@ -256,8 +256,80 @@ def rewound_grid_cases(ctx):
                           {"suite": "c05-rewound", "case": case, "first_failing_clause": "first tick at or after q*ceil(t/q)+d, t the timeline's time at the call"})
 
 
+def shared_pattern_update_cases(ctx):
+    """'Until that tick an updated track keeps playing its old stream': also when the new events hold the very pattern OBJECT the
+    old stream is reading (the usual way to change one key of a running track: update({... "note": same_pattern ...})).  Asking for
+    the update must not touch that pattern: up to the landing tick the track plays exactly what it plays in a session without the
+    update (implementation-only oracle; times on the tick grid, landing tick in exact rationals)."""
+    import math
+    common.ensure_repo_on_path()
+    import isobar as iso
+    from isobar.io.output import OutputDevice
+    r = ctx.rng
+
+    class Rec(OutputDevice):
+        def __init__(self):
+            super().__init__()
+            self.notes = []
+            self.k = 0
+
+        def note_on(self, note=60, velocity=64, channel=0):
+            self.notes.append((self.k, note))
+
+        def note_off(self, note=60, channel=0):
+            pass
+
+    for i in range(ctx.scale(80, 3000)):
+        tpb = r.choice([2, 4, 8, 24])
+        L = r.randint(2, 6)
+        d1 = Fraction(r.choice([1, 2, 3, 4]), 2)
+        d2 = Fraction(r.choice([1, 2, 4]), 2)
+        q = r.choice([0, 1, 2, 4])
+        dl = Fraction(r.choice([0, 0, 1, 2, 3]), 2)
+        if q == 0 and dl == 0:
+            dl = Fraction(1)
+        t0 = r.randint(1, 6 * tpb)
+        how = r.choice(["update", "update", "named-schedule"])
+        total = t0 + (int(q) + int(math.ceil(dl)) + 6) * tpb
+
+        def session(with_update):
+            dev = Rec()
+            tl = iso.Timeline(120, output_device=dev, clock_source=iso.DummyClock(ticks_per_beat=tpb))
+            P = iso.PSequence(list(range(40, 40 + L)))
+            tr = tl.schedule({"note": P, "duration": float(d1)}, name="t")
+            for k in range(total):
+                dev.k = k
+                if with_update and k == t0:
+                    new = {"note": P, "duration": float(d2), "amplitude": 80}
+                    if how == "update":
+                        tr.update(new, quantize=float(q), delay=float(dl))
+                    else:
+                        tl.schedule(new, name="t", quantize=float(q), delay=float(dl))
+                tl.tick()
+            return dev.notes
+        t = Fraction(t0, tpb)
+        land_beats = (q * math.ceil(t / q) if q else t) + dl
+        land = math.ceil(land_beats * tpb)
+        try:
+            plain = [x for x in session(False) if x[0] < land]
+            got = [x for x in session(True) if x[0] < land]
+        except Exception as ex:  # noqa: BLE001
+            plain, got = None, "raised %s" % type(ex).__name__
+        ctx.case(("shared-pattern-update", tpb, L, str(d1), str(d2), q, str(dl), t0, how), nontrivial=True, validated=False,
+                 sample={"shared_pattern_update": {"tpb": tpb, "quantize": q, "delay": str(dl), "requested_at_tick": t0, "how": how}} if i < 3 else None)
+        ctx.count("shared-pattern-update:" + how)
+        if plain != got:
+            ctx.violation("C05:old-stream-until-landing:shared-pattern",
+                          "%s at tick %d (quantize %s, delay %s, %d ticks per beat) with the pattern object the old stream is reading: before "
+                          "the landing tick %d the track plays %s, without the update %s"
+                          % (how, t0, q, dl, tpb, land, got[-8:] if isinstance(got, list) else got, (plain or [])[-8:]),
+                          {"suite": "c05-shared-pattern", "tpb": tpb, "length": L, "d_old": str(d1), "d_new": str(d2), "quantize": q, "delay": str(dl),
+                           "requested_at_tick": t0, "how": how, "first_failing_clause": "until that tick an updated track keeps playing its old stream"})
+
+
 def run(ctx):
     interpolation_update_cases(ctx)
+    shared_pattern_update_cases(ctx)
     rewound_grid_cases(ctx)
     sched_suite.run_suite(ctx, PROF, ctx.scale(2000, 120000), "c05", [], nontrivial, signature_of)
     for i in range(ctx.scale(800, 40000)):
